@@ -935,6 +935,72 @@ example : (3 / 5 : ℝ) ^ 2 + (4 / 5) ^ 2 = 1 ∧ Real.sqrt (1 / 2) ^ 2 + Real.s
   refine ⟨by norm_num, ?_, by norm_num⟩
   rw [Real.sq_sqrt (by norm_num)]; norm_num
 
+/-- **Circular polarising beam splitter on the executed definitions** (`splitterPorts 1 0 R`, `R` the executed retarder at the atoms of a
+quarter-wave plate at 45°: `cos θ = sin θ = h`, `exp(iφ/2) = h + h i`, `exp(iχ) = 1`, `h = √½`, i.e. `2h² = 1`): `R = h·[[1, i], [i, 1]]`
+and the difference of the two port intensities is the circular Stokes parameter `V` of the input, for partially polarised light and
+every input Stokes vector (their sum is `I`: `model_splitter_ports_sum_tensor`). -/
+theorem model_cbs_ports_difference (h : ℝ) (hh : 2 * (h * h) = 1) (e : J2 ℝ) (sv : S4 ℝ) :
+    retarder h h ⟨h, h⟩ ⟨1, 0⟩ = ⟨⟨h, 0⟩, ⟨0, h⟩, ⟨0, h⟩, ⟨h, 0⟩⟩ ∧
+    (jonesStokes (splitterPorts 1 0 (retarder h h ⟨h, h⟩ ⟨1, 0⟩) e).2 sv).i
+      - (jonesStokes (splitterPorts 1 0 (retarder h h ⟨h, h⟩ ⟨1, 0⟩) e).1 sv).i = (jonesStokes e sv).v := by
+  have cx_ext : ∀ {a b : Cx ℝ}, a.re = b.re → a.im = b.im → a = b := by
+    intro a b h1 h2; cases a; cases b; simp only at h1 h2; rw [h1, h2]
+  have hr : retarder h h ⟨h, h⟩ ⟨1, 0⟩ = (⟨⟨h, 0⟩, ⟨0, h⟩, ⟨0, h⟩, ⟨h, 0⟩⟩ : J2 ℝ) := by
+    simp only [retarder, J2.mk.injEq]
+    refine ⟨?_, ?_, ?_, ?_⟩ <;> apply cx_ext <;>
+      simp only [Cx.smul, Cx.add_re, Cx.add_im, Cx.sub_re, Cx.sub_im, Cx.mul_re, Cx.mul_im, Cx.conj_re, Cx.conj_im] <;>
+      first | linear_combination h * hh | linear_combination (-h) * hh | ring
+  refine ⟨hr, ?_⟩
+  rw [hr]
+  obtain ⟨⟨er1, ei1⟩, ⟨er2, ei2⟩, ⟨er3, ei3⟩, ⟨er4, ei4⟩⟩ := e
+  obtain ⟨a, b, c, d⟩ := sv
+  unfold splitterPorts
+  simp only
+  have key : (jonesStokes (polarizer (-0) 1 * ((⟨⟨h, 0⟩, ⟨0, h⟩, ⟨0, h⟩, ⟨h, 0⟩⟩ : J2 ℝ) * ⟨⟨er1, ei1⟩, ⟨er2, ei2⟩, ⟨er3, ei3⟩, ⟨er4, ei4⟩⟩)) ⟨a, b, c, d⟩).i
+      - (jonesStokes (polarizer 1 0 * ((⟨⟨h, 0⟩, ⟨0, h⟩, ⟨0, h⟩, ⟨h, 0⟩⟩ : J2 ℝ) * ⟨⟨er1, ei1⟩, ⟨er2, ei2⟩, ⟨er3, ei3⟩, ⟨er4, ei4⟩⟩)) ⟨a, b, c, d⟩).i
+      = (2 * (h * h)) * (jonesStokes (⟨⟨er1, ei1⟩, ⟨er2, ei2⟩, ⟨er3, ei3⟩, ⟨er4, ei4⟩⟩ : J2 ℝ) ⟨a, b, c, d⟩).v := by
+    jones_model_expand; ring
+  rw [key, hh, one_mul]
+
+/-- `2h² = 1` is satisfiable (`h = √½`). -/
+example : 2 * (Real.sqrt (1 / 2) * Real.sqrt (1 / 2)) = (1 : ℝ) := by
+  rw [Real.mul_self_sqrt (by norm_num)]; norm_num
+
+/-- **`backward ∘ forward = id` on Jones-matrix wavefronts, executed definitions** (`J2.adj`, `J2.mul`: ops `adj`, `mul`): for every
+unitary `J`, in particular the executed retarder of every retarder class. -/
+theorem model_unitary_backward_forward_tensor (j : J2 ℝ)
+    (h : IsUnitary8 j.a11.re j.a11.im j.a12.re j.a12.im j.a21.re j.a21.im j.a22.re j.a22.im) (e : J2 ℝ) :
+    j.adj * (j * e) = e := by
+  have cx_ext : ∀ {a b : Cx ℝ}, a.re = b.re → a.im = b.im → a = b := by
+    intro a b h1 h2; cases a; cases b; simp only at h1 h2; rw [h1, h2]
+  obtain ⟨⟨xr, xi⟩, ⟨yr, yi⟩, ⟨zr, zi⟩, ⟨wr, wi⟩⟩ := j
+  obtain ⟨⟨pr, pi⟩, ⟨p2r, p2i⟩, ⟨qr, qi⟩, ⟨q2r, q2i⟩⟩ := e
+  obtain ⟨h1, h2, h3, h4⟩ := h
+  simp only at h1 h2 h3 h4
+  show J2.mul _ (J2.mul _ _) = _
+  simp only [J2.mul, J2.adj, J2.mk.injEq]
+  refine ⟨?_, ?_, ?_, ?_⟩ <;> apply cx_ext <;>
+    simp only [Cx.add_re, Cx.add_im, Cx.mul_re, Cx.mul_im, Cx.conj_re, Cx.conj_im]
+  · linear_combination pr * h1 + qr * h3 - qi * h4
+  · linear_combination pi * h1 + qi * h3 + qr * h4
+  · linear_combination p2r * h1 + q2r * h3 - q2i * h4
+  · linear_combination p2i * h1 + q2i * h3 + q2r * h4
+  · linear_combination pr * h3 + pi * h4 + qr * h2
+  · linear_combination pi * h3 - pr * h4 + qi * h2
+  · linear_combination p2r * h3 + p2i * h4 + q2r * h2
+  · linear_combination p2i * h3 - p2r * h4 + q2i * h2
+
+theorem model_retarder_backward_forward_tensor (h : c ^ 2 + s ^ 2 = 1) (hp : pc ^ 2 + ps ^ 2 = 1) (hx : xc ^ 2 + xs ^ 2 = 1) (e : J2 ℝ) :
+    (retarder c s ⟨pc, ps⟩ ⟨xc, xs⟩).adj * (retarder c s ⟨pc, ps⟩ ⟨xc, xs⟩ * e) = e :=
+  model_unitary_backward_forward_tensor _ (model_retarder_unitary c s pc ps xc xs h hp hx) e
+
+/-- The intensity of a Jones-matrix pixel with a physical input Stokes vector is non-negative (executed `jonesStokes`). -/
+theorem model_stokesI_nonneg (e : J2 ℝ) (sv : S4 ℝ) (ha : 0 ≤ sv.i) (hphys : sv.q ^ 2 + sv.u ^ 2 + sv.v ^ 2 ≤ sv.i ^ 2) :
+    0 ≤ (jonesStokes e sv).i := jonesStokes_i_nonneg e sv ha hphys
+
+example : (0 : ℝ) ≤ (⟨1, 0, 0, 0⟩ : S4 ℝ).i ∧ (⟨1, 0, 0, 0⟩ : S4 ℝ).q ^ 2 + (⟨1, 0, 0, 0⟩ : S4 ℝ).u ^ 2 + (⟨1, 0, 0, 0⟩ : S4 ℝ).v ^ 2 ≤ (⟨1, 0, 0, 0⟩ : S4 ℝ).i ^ 2 := by
+  norm_num
+
 end round5
 
 end HcipyVerif.C08
